@@ -455,11 +455,8 @@ func c14run(r *ev.Run) {
 		t := "SELECT v FROM m WHERE " + cnd
 		if _, err := influxql.ParseStatement(t); err == nil {
 			if _, ok := roots[t]; !ok {
-				// cost 2: conditions of one or two atoms (two-step histories in the thorough tier); cost 3: three atoms
-				roots[t] = 2 + strings.Count(cnd, " AND ") + strings.Count(cnd, " OR ") - 1
-				if roots[t] < 2 {
-					roots[t] = 2
-				}
+				// cost 9 marks the hand-built condition roots: single-step histories in both tiers (there are ~6 000 of them)
+				roots[t] = 9
 				nCond++
 			}
 			exprs[cnd] = true
@@ -475,7 +472,7 @@ func c14run(r *ev.Run) {
 	} {
 		if _, err := influxql.ParseStatement(t); err == nil {
 			if _, ok := roots[t]; !ok {
-				roots[t] = 2
+				roots[t] = 9
 				nCond++
 			}
 		}
@@ -497,7 +494,7 @@ func c14run(r *ev.Run) {
 				hist = append(hist, [][2]int{{m, side}})
 			}
 		}
-		if cost <= 1 || (th && cost <= 2) {
+		if cost <= 1 || (th && cost < 9) {
 			for m1 := 0; m1 < nm; m1++ {
 				for s1 := 0; s1 < 2; s1++ {
 					for m2 := 0; m2 < nm; m2++ {
